@@ -637,9 +637,11 @@ impl<'a> Searcher<'a> {
 
         let canonical_depth = crate::util::calc_depth(&canonical_path);
 
+        // root_depth is 0 for the search root itself and the root's depth + 1 below it
+        // (the depth of the root directory `/` is 0 as well)
         let base_depth = match root_depth {
             0 => canonical_depth,
-            _ => root_depth,
+            _ => root_depth - 1,
         };
 
         let depth = canonical_depth - base_depth + 1;
@@ -788,7 +790,7 @@ impl<'a> Searcher<'a> {
                                                     &path,
                                                     min_depth,
                                                     max_depth,
-                                                    base_depth,
+                                                    base_depth + 1,
                                                     search_archives,
                                                     apply_gitignore,
                                                     #[cfg(feature = "git")]
@@ -848,7 +850,7 @@ impl<'a> Searcher<'a> {
                     &path,
                     min_depth,
                     max_depth,
-                    base_depth,
+                    base_depth + 1,
                     search_archives,
                     apply_gitignore,
                     #[cfg(feature = "git")]
